@@ -182,6 +182,53 @@ def _check_program(ctx, pseed, depth, n_values=4):
                         good = False
                     elif pod:
                         ctx.count("pod_closures")
+            # Round 11: looking ahead (peek=True) never consumes - neither when the look succeeds nor when it is refused on a
+            # buffer that ends too early; the reader is then used for the next, valid, read (buffer and file-handle readers)
+            lead = bytes([0xA5, vseed & 0xFF])
+            cut = random.Random(vseed + 11).randrange(len(data)) if data else 0
+            for kind in ("buffer", "file"):
+                for buf, whole in ((lead + data, True), (lead + data[:cut], False)):
+                    if kind == "buffer":
+                        r = se.BufferReader(endian, buf)
+                    else:
+                        import io
+                        r = se.FHReader(endian, io.BytesIO(buf))
+                    try:
+                        r.read_bytes(2)
+                        try:
+                            peeked = r.read(spec, peek=True)
+                            refused = False
+                        except Exception:
+                            peeked, refused = None, True
+                        ctx.count("peeks_refused" if refused else "peeks_answered")
+                        pos = r.tell()
+                        if pos != 2:
+                            ctx.violation("peek-consumes:" + ("refused" if refused else "answered") + ":" + kind,
+                                          "a look ahead (peek=True) left the reader somewhere else than where it was",
+                                          dict(wit, endian=endian, reader=kind, position=pos, expected=2, whole=whole, buffer=buf[:200]))
+                            good = False
+                            continue
+                        if whole:
+                            if refused:
+                                ctx.violation("peek-raises:" + kind, "a look ahead at a complete encoding raised",
+                                              dict(wit, endian=endian, reader=kind))
+                                good = False
+                                continue
+                            after = r.read(spec)
+                            if gen_spec.canon(after) != canon_v or gen_spec.canon(peeked) != canon_v or r.tell() != len(buf):
+                                ctx.violation("read-after-peek-differs:" + kind, "the read after a look ahead did not give the value / framing",
+                                              dict(wit, endian=endian, reader=kind, got=repr(gen_spec.canon(after))[:300], end=r.tell(), written=len(buf)))
+                                good = False
+                        else:
+                            rest = bytes(r.read_bytes(len(buf) - 2, to_bytes=True)) if len(buf) > 2 else b""
+                            if rest != buf[2:]:
+                                ctx.violation("read-after-refused-peek-differs:" + kind, "after a look ahead the rest of the buffer reads differently",
+                                              dict(wit, endian=endian, reader=kind, got=rest[:100], expected=buf[2:102]))
+                                good = False
+                    except Exception as e:
+                        ctx.violation("peek-probe-raises:" + kind, "reading around a look ahead raised",
+                                      dict(wit, endian=endian, reader=kind, whole=whole, exc=repr(e)[:300]))
+                        good = False
             if good:
                 ctx.count("roundtrips")
                 ok_any = True
